@@ -83,8 +83,12 @@ func isConnectionSpecific(k []byte) bool {
 }
 
 func ToLower(b []byte) []byte {
-	for i := range b {
-		b[i] |= 32
+	for i, c := range b {
+		// Only letters have a lower case: OR-ing 0x20 into every byte turns
+		// '_' into DEL and '@' into '`'.
+		if c >= 'A' && c <= 'Z' {
+			b[i] = c | 32
+		}
 	}
 
 	return b
